@@ -181,13 +181,23 @@ def tok(s):
     return "N" if s is None else hx(s)
 
 
-def line_msg(allow, deny, order, key, value):
-    return "msg %d %d %d %s %s" % (allow, deny, order, hx(key), hx(value))
+# The consumer module's own name and the cluster it is configured for: different strings in most cases (a request must name
+# the cluster, never the module), equal in some (as in every fixture of the unit tests).
+CFGS = [(b"rdr", b"test"), (b"kafka-reader", b"east"), (b"test", b"c2"), (b"east", b"test"), (b"test", b"test"), (b"c2", b"c2")]
+DEFAULT_CFG = CFGS[0]
 
 
-def line_vo(allow, deny, order, f):
-    return "vo %d %d %d %d %s %s %d %s %d %d %s %d %d" % (
-        allow, deny, order, f["keyver"], tok(f["group"]), tok(f["topic"]), f["partition"], f["valver"],
+def rnd_cfg(rng):
+    return rng.choice(CFGS)
+
+
+def line_msg(allow, deny, order, key, value, cfg=DEFAULT_CFG):
+    return "msg %s %s %d %d %d %s %s" % (hx(cfg[0]), hx(cfg[1]), allow, deny, order, hx(key), hx(value))
+
+
+def line_vo(allow, deny, order, f, cfg=DEFAULT_CFG):
+    return "vo %s %s %d %d %d %d %s %s %d %s %d %d %s %d %d" % (
+        hx(cfg[0]), hx(cfg[1]), allow, deny, order, f["keyver"], tok(f["group"]), tok(f["topic"]), f["partition"], f["valver"],
         f["offset"], f["epoch"], tok(f["metadata"]), f["ts"], f["expire"])
 
 
@@ -203,8 +213,8 @@ def fmt_assignment(a):
     return " ".join(out)
 
 
-def line_vm(allow, deny, order, f):
-    out = ["vm", str(allow), str(deny), str(order), tok(f["group"]), str(f["valver"]), tok(f["ptype"]),
+def line_vm(allow, deny, order, f, cfg=DEFAULT_CFG):
+    out = ["vm", hx(cfg[0]), hx(cfg[1]), str(allow), str(deny), str(order), tok(f["group"]), str(f["valver"]), tok(f["ptype"]),
            str(f["generation"]), tok(f["protocol"]), tok(f["leader"]), str(f["statets"]), str(len(f["members"]))]
     for m in f["members"]:
         out += [tok(m["id"]), tok(m["instance"]), tok(m["clientid"]), tok(m["host"]), str(m["rebalance"]),
@@ -220,27 +230,27 @@ def sval(s):
     return b"" if s is None else s
 
 
-def fmt_req(kind, g=b"", t=b"", p=0, off=0, ts=0, order=0, owner=b"", cid=b""):
-    return "%s test %s %s %d %d %d %d %s %s" % (kind, hx(g), hx(t), p, off, ts, order, hx(owner), hx(cid))
+def fmt_req(kind, cluster, g=b"", t=b"", p=0, off=0, ts=0, order=0, owner=b"", cid=b""):
+    return "%s %s %s %s %d %d %d %d %s %s" % (kind, hx(cluster), hx(g), hx(t), p, off, ts, order, hx(owner), hx(cid))
 
 
-def expect_offset(allow, deny, order, f):
+def expect_offset(allow, deny, order, f, cluster):
     g = sval(f["group"])
     if not accept(allow, deny, g) or f["valver"] == "T" or f["valver"] not in (0, 1, 3):
         return []
-    return [fmt_req("offset", g, sval(f["topic"]), f["partition"], f["offset"], f["ts"], order)]
+    return [fmt_req("offset", cluster, g, sval(f["topic"]), f["partition"], f["offset"], f["ts"], order)]
 
 
-def expect_meta(allow, deny, f):
+def expect_meta(allow, deny, f, cluster):
     g = sval(f["group"])
     if not accept(allow, deny, g):
         return []
     if f["valver"] == "T":
-        return [fmt_req("delete", g)]
+        return [fmt_req("delete", cluster, g)]
     if sval(f["ptype"]) != b"consumer":
         return []
     if not f["members"]:
-        return [fmt_req("clear", g)]
+        return [fmt_req("clear", cluster, g)]
     out = []
     for m in f["members"]:
         a = m["assignment"]
@@ -251,7 +261,7 @@ def expect_meta(allow, deny, f):
             topics[sval(name)] = parts        # a repeated topic name: the later entry wins (Go map assignment)
         for name, parts in topics.items():
             for p in parts:
-                out.append(fmt_req("owner", g, name, p, owner=sval(m["host"]), cid=sval(m["clientid"])))
+                out.append(fmt_req("owner", cluster, g, name, p, owner=sval(m["host"]), cid=sval(m["clientid"])))
     return sorted(out)
 
 
@@ -427,32 +437,54 @@ def gen_meta_fields(rng, maxm=5, maxt=4, maxp=6, valver=None, long_ok=True):
                 members=[gen_member(rng, maxt, maxp, dup, long_ok) for _ in range(nm)], dup=dup)
 
 
-def gen_valid(rng):
-    """One well-formed message of the C07 stream: (line, tags, expected_output_prefix, python_key, python_value)."""
-    allow, deny = rnd_lists(rng)
+def long_str(rng, tag, i):
+    """A long string that no other case shares (re-entrancy: a decoder that shares scratch space between calls mixes them up)."""
+    n = rng.choice([20, 40, 80, 160, 300])
+    return b"%s%06d-" % (tag, i) + bytes(rng.randrange(33, 127) for _ in range(n))
+
+
+def gen_valid(rng, cfg=None, lists=None, unique=None):
+    """One well-formed message of the C07 stream: (line, tags, expected_output_prefix, python_key, python_value).
+    unique = i: the group name is unique to case i and most strings are long and distinct (concurrent stream)."""
+    allow, deny = rnd_lists(rng) if lists is None else lists
+    if cfg is None:
+        cfg = rnd_cfg(rng)
     order = rnd_int(rng, I64)
     if rng.random() < 0.45:
         f = gen_offset_fields(rng)
+        if unique is not None:
+            f["group"] = long_str(rng, b"cg", unique)
+            f["topic"] = long_str(rng, b"tp", unique)
+            f["metadata"] = long_str(rng, b"md", unique)
         key, value, _, _ = enc_offset(f)
-        exp = expect_offset(allow, deny, order, f)
+        exp = expect_offset(allow, deny, order, f, cfg[1])
         tags = ["offset", "offset:kv%d" % f["keyver"], "offset:vv%s" % f["valver"]]
-        line = line_vo(allow, deny, order, f)
+        line = line_vo(allow, deny, order, f, cfg)
         g = sval(f["group"])
     else:
         f = gen_meta_fields(rng)
+        if unique is not None:
+            f["group"] = long_str(rng, b"cg", unique)
+            for j, m in enumerate(f["members"]):
+                m["clientid"] = long_str(rng, b"ci%d-" % j, unique)
+                m["host"] = long_str(rng, b"/h%d-" % j, unique)
+                if isinstance(m["assignment"], dict):
+                    m["assignment"]["topics"] = [(long_str(rng, b"t%d-%d-" % (j, k), unique), ps)
+                                                 for k, (_n, ps) in enumerate(m["assignment"]["topics"])]
         key, value, _, _ = enc_meta(f)
-        exp = expect_meta(allow, deny, f)
+        exp = expect_meta(allow, deny, f, cfg[1])
         tags = ["metadata", "metadata:vv%s" % f["valver"], "members%d" % len(f["members"])]
         for m in f["members"]:
             a = m["assignment"]
             tags.append("assignment:" + ("null" if a is None else ("empty" if a == "E" else "topics%d" % len(a["topics"]))))
-        if f["dup"]:
+        if f["dup"] and unique is None:
             tags.append("dup-topic")
         if sval(f["ptype"]) != b"consumer":
             tags.append("other-protocol")
-        line = line_vm(allow, deny, order, f)
+        line = line_vm(allow, deny, order, f, cfg)
         g = sval(f["group"])
     tags.append("lists:%s" % ("none" if (allow, deny) == (0, 0) else ("accept" if accept(allow, deny, g) else "reject")))
+    tags.append("module-name:%s" % ("same-as-cluster" if cfg[0] == cfg[1] else "differs-from-cluster"))
     return line, tags, fmt_expected(exp), key, value
 
 
@@ -497,6 +529,7 @@ def gen_hostile(rng):
     """One case of the C06 stream: (line, tags)."""
     allow, deny = rnd_lists(rng) if rng.random() < 0.3 else (0, 0)
     order = rnd_int(rng, I64)
+    cfg = rnd_cfg(rng)
     r = rng.random()
     if r < 0.2:
         n1, n2 = rng.randrange(0, 40), rng.randrange(0, 201)
@@ -506,29 +539,29 @@ def gen_hostile(rng):
             key[0] = 0
             if len(key) > 1:
                 key[1] = rng.choice([0, 1, 2, 2, 2])
-        return line_msg(allow, deny, order, bytes(key), value), ["random", "random"]
+        return line_msg(allow, deny, order, bytes(key), value, cfg), ["random", "random"]
     kind, key, value, k, v = gen_base(rng)
     key, value = bytearray(key), bytearray(value)
     if r < 0.25:
-        return line_msg(allow, deny, order, bytes(key), bytes(value)), [kind, "valid"]
+        return line_msg(allow, deny, order, bytes(key), bytes(value), cfg), [kind, "valid"]
     if r < 0.45:
         # truncation at a byte boundary of the key or of the value
         if rng.random() < 0.3 and len(key) > 0:
             key = key[:rng.randrange(0, len(key))]
-            return line_msg(allow, deny, order, bytes(key), bytes(value)), [kind, "truncate-key"]
+            return line_msg(allow, deny, order, bytes(key), bytes(value), cfg), [kind, "truncate-key"]
         if len(value) > 0:
             value = value[:rng.randrange(0, len(value))]
-        return line_msg(allow, deny, order, bytes(key), bytes(value)), [kind, "truncate-value"]
+        return line_msg(allow, deny, order, bytes(key), bytes(value), cfg), [kind, "truncate-value"]
     marks = [("k",) + m for m in k.marks] + [("v",) + m for m in v.marks]
     if r < 0.55:
         vers = [m for m in marks if m[3] in ("keyver", "valver", "asgver")]
         if vers:
             side, pos, w, mk, sc = rng.choice(vers)
             put(key if side == "k" else value, pos, w, rng.choice([-1, 0, 1, 2, 3, 4, 5]))
-            return line_msg(allow, deny, order, bytes(key), bytes(value)), [kind, "version:" + mk]
+            return line_msg(allow, deny, order, bytes(key), bytes(value), cfg), [kind, "version:" + mk]
     lens = [m for m in marks if m[3] not in ("keyver", "valver", "asgver")]
     if not lens:
-        return line_msg(allow, deny, order, bytes(key), bytes(value)), [kind, "valid"]
+        return line_msg(allow, deny, order, bytes(key), bytes(value), cfg), [kind, "valid"]
     nmut = 1 if rng.random() < 0.85 else 2
     tag = []
     for _ in range(nmut):
@@ -543,7 +576,7 @@ def gen_hostile(rng):
     if rng.random() < 0.15 and len(value) > 0:
         value = value[:rng.randrange(0, len(value) + 1)]
         tag.append("cut")
-    return line_msg(allow, deny, order, bytes(key), bytes(value)), [kind, "field:" + "+".join(tag)]
+    return line_msg(allow, deny, order, bytes(key), bytes(value), cfg), [kind, "field:" + "+".join(tag)]
 
 
 def gen_re(rng):
@@ -738,7 +771,8 @@ def gen_c10(rng, n_random):
     def one(allow, deny, g, kind):
         key, value = c10_message(rng, kind, g)
         order = rnd_int(rng, I64)
-        line = "c10 %d %d %d %s %s %s" % (allow, deny, order, hx(g), hx(key), hx(value))
+        cfg = rnd_cfg(rng)
+        line = "c10 %s %s %d %d %d %s %s %s" % (hx(cfg[0]), hx(cfg[1]), allow, deny, order, hx(g), hx(key), hx(value))
         am = pat_match(allow, g) if allow else False
         dm = pat_match(deny, g) if deny else False
         cls = "allow:%s/deny:%s" % (("unset" if not allow else ("match" if am else "nomatch")),
